@@ -2,7 +2,7 @@
 # development helper: run the check of each seeded change's property against a scratch copy of /repo with the change applied.
 # usage: tools/seed_matrix.sh [seed ...]   -> one line per seed in seeded/DETECTION.tsv (seed, check, exit code, first violated/undecided obligation)
 cd "$(dirname "$0")/.."
-OUT=seeded/DETECTION.tsv
+OUT=${SEED_OUT:-seeded/DETECTION.tsv}
 [ $# -gt 0 ] && SEEDS="$*" || { SEEDS=$(ls seeded | grep '^C[0-9][0-9]_'); : > $OUT; }
 for s in $SEEDS; do
   prop=${s%_*}
